@@ -17,6 +17,9 @@ class Ctx(object):
         fb = case['fb']
         mv = d.params['min_value']
         self.minv = Fraction(mv.item() if hasattr(mv, 'item') else mv) * (2 ** fb)
+        if case.get('minv', 'min') != 'min':
+            # an explicit threshold is the one that was ASKED for, whatever the dendrogram recorded
+            self.minv = Fraction(case['minv'][0], case['minv'][1])
         self.kept = [p for p in range(self.n) if self.k[p] is not None and self.k[p] > self.minv]
         self.keptset = set(self.kept)
         self.adj = [self._nbrs(p) for p in range(self.n)]
